@@ -1,12 +1,12 @@
 SPECIFICATION Spec
 CONSTANTS
   N = 1
-  MaxTime = 13
+  MaxTime = 12
   MaxSkew = 1
   Budget = 1
   Variant = "design"
-  Faults <- WriteFaults
-  MaxToggle = 3
+  Faults <- C13Faults
+  MaxToggle = 2
   Removal = TRUE
   Remotes <- RemotesNone
   MaxWaits = 99
@@ -19,8 +19,8 @@ CONSTANTS
   HealOdds = 3
   ListLag = FALSE
   FixSkew = FALSE
-  MaxMods = 0
+  MaxMods = 2
   Edge = FALSE
 VIEW View
-INVARIANTS TypeOK InvHolderHasFile InvFresh InvNoWriteAfterCancel InvExclusion InvNotStale
+INVARIANTS TypeOK InvHolderHasFile InvFresh InvNoWriteAfterCancel
 CHECK_DEADLOCK FALSE
